@@ -855,6 +855,19 @@ func generate(rng *rand.Rand, steps int, profile string, hosts []string) ([]stri
 			err := im.c.SetReplicaMode(a, m)
 			g.emit(fmt.Sprintf("setmode %s %s", a, m), classify(err, "Can not set to mode"))
 			g.feat["setmode-"+string(m)] = true
+			if m == types.ERR && rng.Float64() < 0.4 {
+				// a late or duplicate request for a replica that is already marked ERR (its monitor
+				// has not removed it yet), then I/O
+				im.w.ResetLog()
+				m2 := []types.Mode{types.RW, types.RW, types.ERR}[rng.Intn(3)]
+				err := im.c.SetReplicaMode(a, m2)
+				g.emit(fmt.Sprintf("setmode %s %s", a, m2), classify(err, "Can not set to mode"))
+				g.feat["setmode-on-ERR"] = true
+				if !im.c.ReadOnly {
+					g.doIO("w")
+				}
+				g.doRead()
+			}
 		case "w", "sync", "unmap":
 			if im.c.ReadOnly && rng.Float64() > 0.04 {
 				continue // refused requests sleep 1 s each
